@@ -2,6 +2,7 @@ package gedcom
 
 import (
 	"fmt"
+	"sync"
 )
 
 // DateNode represents a DATE node.
@@ -15,13 +16,18 @@ type DateNode struct {
 	// should not be parsed again.
 	alreadyParsed   bool
 	parsedDateRange DateRange
+
+	// cacheMutex guards alreadyParsed and parsedDateRange. A document is
+	// read by several goroutines when individuals are compared or pages are
+	// published with more than one job.
+	cacheMutex sync.Mutex
 }
 
 // NewDateNode creates a new DATE node.
 func NewDateNode(value string, children ...Node) *DateNode {
 	return &DateNode{
 		newSimpleNode(TagDate, value, "", children...),
-		false, DateRange{},
+		false, DateRange{}, sync.Mutex{},
 	}
 }
 
@@ -32,11 +38,18 @@ func (node *DateNode) DateRange() (dateRange DateRange) {
 	}
 
 	// Parsing dates is very expensive. Cache them.
+	node.cacheMutex.Lock()
 	if node.alreadyParsed {
+		defer node.cacheMutex.Unlock()
+
 		return node.parsedDateRange
 	}
+	node.cacheMutex.Unlock()
 
 	defer func(node *DateNode) {
+		node.cacheMutex.Lock()
+		defer node.cacheMutex.Unlock()
+
 		node.parsedDateRange = dateRange
 		node.alreadyParsed = true
 	}(node)
